@@ -467,6 +467,7 @@ class Tracer:
         self._round = -1
         self.relabel_script = None
         self.relabel_log = []
+        self.init_mismatch = None
 
     # ------------------------------------------------------------------ proxies
     def _phase_proxy(self, tag, orig):
@@ -554,7 +555,12 @@ class Tracer:
             if self.init_labels is None:
                 return orig(num_clusters, data, *a, **k)
             if len(self.init_labels) != len(data):
-                raise HarnessError("scripted initial labelling has wrong length")
+                # the library stacked a different number of windows than the driver expects: that is for
+                # the check's oracle to report (not a harness failure) - answer with a contiguous-block
+                # labelling of the right length so that the run can go on
+                self.init_mismatch = (len(self.init_labels), len(data))
+                n = len(data)
+                return [min(num_clusters - 1, (i * num_clusters) // max(1, n)) for i in range(n)]
             return list(self.init_labels)
         return proxy
 
